@@ -130,15 +130,32 @@ pub fn from_json(v: &Value, img: &FsImage) -> Result<Vec<Decision>, String> {
                 let order: Vec<u32> = if e["sorted"].as_bool() == Some(true) {
                     (0..n as u32).collect()
                 } else {
+                    // The order is stored by entry name. If the data tree has changed since the file
+                    // was recorded (entries added or removed: the replay then describes another
+                    // tree and is not expected to reproduce), the entries that still exist keep
+                    // their relative order and new ones follow in sorted order.
                     let names = dir_names(img, &path);
-                    let mut o = vec![];
+                    let mut o: Vec<u32> = vec![];
+                    let mut missing = 0usize;
                     for x in e["order"].as_array().ok_or("read_dir without order")? {
                         let name = x.as_str().ok_or("order entry is not a string")?;
-                        let idx = names
-                            .iter()
-                            .position(|n| n == name)
-                            .ok_or_else(|| format!("directory {} has no entry {:?} any more", path, name))?;
-                        o.push(idx as u32);
+                        match names.iter().position(|n| n == name) {
+                            Some(idx) => o.push(idx as u32),
+                            None => missing += 1,
+                        }
+                    }
+                    let mut unlisted = 0usize;
+                    for i in 0..names.len() as u32 {
+                        if !o.contains(&i) {
+                            o.push(i);
+                            unlisted += 1;
+                        }
+                    }
+                    if missing + unlisted > 0 {
+                        eprintln!(
+                            "note: directory {} is not the one this replay file was recorded on ({} recorded entries are gone, {} entries are new)",
+                            path, missing, unlisted
+                        );
                     }
                     o
                 };
